@@ -128,6 +128,7 @@ func (ds *Dataset) RefreshFullSyncLease(fullSyncID string) error {
 			lease := ds.fullSyncLease
 			go func() {
 				verifhook.Go(ds.store.database, "fullsync.lease")
+				defer verifhook.Done(ds.store.database, "fullsync.lease")
 
 				<-ctx.Done()
 				verifhook.Point(ds.store.database, "fullsync.lease.fired")
